@@ -11,6 +11,10 @@ TECH = ('explicit TLA+ specification model-checked with TLC; TLC-emitted '
 
 # property id -> (design_ref, level text, level note, technique suffix)
 CLAIMED = {
+    'C18': ('5/C18, 3.8',
+            "spec/BpchLayout.tla is the bpch layout grammar (general header; per time block and tracer a 36-byte model header, a 168-byte data-block header with category, tracer id, unit, tau0/tau1, dimensions, nested-grid offsets and skip, and the data record with the tracer's own layer count) plus the header-walk automaton of the memory-mapped reader; BpchLayout_MC checks header sizes, skip = data + 8, tiling and that the walk recovers the tracer list on all configurations (1-3 tracers from two categories with different layer counts in any order, grids up to 3x2, nested offsets, 1-3 time blocks) and emits them. Each is serialised by the typed-field encoder with generated tracerinfo/diaginfo tables (category offsets 0/100, scales 2, 1, 1/2) and taken through bpch1(noscale) -> ncf2bpch (the 32-bit words of the output must equal the original), bpch1 with scaling (raw x table scale, unit from the table), write/read of the scaled file, and bpch2; Bpch_Trace validates every step.",
+            'Trusted: the typed-field serialiser, the generated fixed-width tables. Table scales are powers of two and data integer tokens (exact). Truncated bpch files (C14 mentions them) are not scanned yet; vertical-grid metadata (hyai/hybi) is not compared.',
+            'layout grammar + read/rewrite/scale traces validated'),
     'C14': ('5/C14, 3.7',
             'CamxLayout_MC transcribes the decision procedure of the memory-mapped uamiv reader (headers must be mappable; (size - header)/block must be integral) and checks for EVERY cut offset of every configuration (1.1M states thorough) that it never exposes more than the complete steps and reads the full file completely. Every proper prefix of reference-encoded files (all offsets for files up to 1.5 kB, block boundaries +-1 and a sample otherwise) is opened under a timer; Camx_Trace requires raise, or complete steps with data and time flags identical to the full file, never a hang, and the outcome the model predicts.',
             'Trusted: the typed-field serialiser and the length-marker record walker in harness/camx.py (they know field types, not formats), TLC. Scope: the gridded uamiv format (AVERAGE/EMISSIONS, 1-3 species with names of 1-10 characters, grids up to 3x2x2, 1-3 hourly steps, six start instants incl. year ends 1999/2011/2069, leap days, the 1970 pivot, both end-of-day spellings). Lateral boundary, land use and the meteorological formats are not modelled yet (DESIGN.md 6); data are integer tokens, arbitrary float payloads only through the byte-identity clause. bpch and the other CAMx formats are not yet covered.',
